@@ -295,7 +295,15 @@ def workload(ctx, repo):
                                     {"months": -1, "days": 30},
                                     {"months": 12}, {"months": -24},
                                     {"months": 13, "years": -2},
-                                    {"months": -1, "years": 1, "days": 1}):
+                                    {"months": -1, "years": 1, "days": 1},
+                                    # exact parts that cross several New
+                                    # Years in one go, either way
+                                    {"months": 2, "days": -400},
+                                    {"months": -1, "days": -800},
+                                    {"years": 1, "days": -1200},
+                                    {"months": 1, "days": 800},
+                                    {"years": -1, "days": 1500},
+                                    {"months": 3, "hours": -24 * 1100}):
                             kw = gen.date_kwargs(mode, rep, rd)
                             kw.update({"hour_of_day": 6, "minute_of_hour": 7,
                                        "second_of_minute": 8})
